@@ -41,6 +41,7 @@ type Stats struct {
 	SolverNanos int64
 	Resets      int64
 	OneShot     int64
+	HardKills   int64 // solver processes killed by the wall-clock guard
 }
 
 func (s *Stats) Add(o *Stats) {
@@ -54,6 +55,7 @@ func (s *Stats) Add(o *Stats) {
 	s.SolverNanos += o.SolverNanos
 	s.Resets += o.Resets
 	s.OneShot += o.OneShot
+	s.HardKills += o.HardKills
 }
 
 type Solver struct {
@@ -112,11 +114,17 @@ func (s *Solver) oneShotCheck(extra []*sym.Term, want []*sym.Term) (Result, Mode
 		s.one = nil
 		return Unknown, nil
 	}
+	// wall-clock guard (see roundTripGuard)
+	oproc := o.cmd.Process
+	guard := time.AfterFunc(time.Duration(s.TimeoutMs)*4*time.Millisecond+5*time.Second, func() { oproc.Kill() })
+	defer guard.Stop()
 	var lines []string
 	for {
 		ln, err := o.out.ReadString('\n')
 		if err != nil {
+			go o.cmd.Wait()
 			s.one = nil
+			s.Stats.HardKills++
 			return Unknown, nil
 		}
 		ln = strings.TrimRight(ln, "\r\n")
@@ -257,6 +265,39 @@ func (s *Solver) roundTrip(txt string) []string {
 	}
 }
 
+// roundTripGuard is roundTrip with a wall-clock guard: z3 does not always honour its own
+// :timeout (nonlinear arithmetic inside the incremental core can run for hours). When no
+// answer arrives within hard, the process is killed, a new one is started and the current
+// path scope is asserted again; the caller treats the query as unknown.
+func (s *Solver) roundTripGuard(txt string, hard time.Duration) (lines []string, ok bool) {
+	killed := int32(0)
+	proc := s.cmd.Process
+	timer := time.AfterFunc(hard, func() {
+		atomic.StoreInt32(&killed, 1)
+		proc.Kill()
+	})
+	defer func() {
+		timer.Stop()
+		if r := recover(); r != nil {
+			if atomic.LoadInt32(&killed) == 0 {
+				panic(r)
+			}
+			s.Stats.HardKills++
+			scope := append([]*sym.Term{}, s.scope...)
+			s.restart()
+			s.send("(push 1)\n")
+			s.inScope = true
+			s.scope = s.scope[:0]
+			s.scopeFP = false
+			for _, t := range scope {
+				s.Assert(t)
+			}
+			lines, ok = nil, false
+		}
+	}()
+	return s.roundTrip(txt), true
+}
+
 // BeginPath discards the assertions of the previous path (definitions are kept).
 func (s *Solver) BeginPath() {
 	s.sinceRst++
@@ -351,7 +392,11 @@ func (s *Solver) Check(extra []*sym.Term, want []*sym.Term) (Result, Model) {
 		fmt.Fprintf(&sb, "(assert %s)\n", r)
 	}
 	sb.WriteString("(check-sat)\n")
-	lines := s.roundTrip(sb.String())
+	fast := s.TimeoutMs / 4
+	if fast < 1000 {
+		fast = 1000
+	}
+	lines, alive := s.roundTripGuard(sb.String(), time.Duration(fast)*4*time.Millisecond+5*time.Second)
 	res := Unknown
 	bad := false
 	for _, ln := range lines {
@@ -378,7 +423,9 @@ func (s *Solver) Check(extra []*sym.Term, want []*sym.Term) (Result, Model) {
 			res = Unknown
 		}
 	}
-	s.send("(pop 1)\n")
+	if alive {
+		s.send("(pop 1)\n")
+	}
 	if res == Unknown {
 		// second chance in a fresh context (tactic-based solver), before the portfolio
 		s.Stats.OneShot++
